@@ -31,7 +31,7 @@ PROP = "C07"
 READY = False
 TECHNIQUE = (
     "exception-escape closure, character-class dataflow over the scanner's CFGs (termination, sentinel bounds), "
-    "order-insensitive fingerprints against the parsed source of yaml/scanner.py"
+    "normal-form fingerprints against the parsed sources of yaml/scanner.py and yaml/reader.py, path rules over the pair assembly"
 )
 
 OPT = "parsers.options"
@@ -39,34 +39,60 @@ END = "\0"
 
 META = {
     "explanation": (
-        "Static necessary conditions of 'the option tokenizer agrees with YAML on its subset and fails only its own way'. "
-        "R1: exception-escape closure of options_to_items - only TokenizeError may leave it; table look-ups are dominated by "
-        "their membership test. R2: every loop of parsers/options.py terminates: each cyclic path of the loop's CFG strictly "
-        "advances the cursor or a look-ahead counter (character-class facts decide conditional advances such as "
-        "_scan_line_break); two loops that need a relational argument are tabled with their hand proof and still checked in "
-        "the weak form. R3: no forward()/peek(k) can step over the end-of-buffer sentinel: every advance is dominated by "
-        "character facts that exclude END (look-ahead counters carry the invariant 'all counted offsets are not END'). "
-        "R4: escape tables, the _CHARS_* classes, StreamBuffer's line accounting and, for the 13 functions ported from "
-        "PyYAML, three order-insensitive fingerprints (guards = tested expression x operator x character set; stream "
-        "effects; emitted chunks/returns) equal those extracted from the installed yaml/scanner.py and yaml/reader.py, "
-        "modulo a tabled list of deliberate deviations. R5: every TokenizeError carries Position values taken from the "
-        "stream, get_position() binds each Position field to the cursor field of the same name, clone() shifts both marks by "
-        "the same offsets (directly or through a helper) and the offsets reach it un-crossed. R6: the state machine around the "
-        "scanners - block/quoted scalars are dispatched on exactly the characters PyYAML's fetch_more_tokens uses and receive "
-        "that character as style, scanners left/right of the ':' get is_key True/False, every pending key reaches a yield "
-        "before it is overwritten or the generator ends and no key is yielded twice (path rule over _to_tokens' CFG), and the "
-        "result pair is (key.value, value.value or '')."
+        "Static necessary conditions of 'the option tokenizer agrees with YAML on its subset and fails only its own way', decided "
+        "over the syntax trees / CFGs of parsers/options.py and the parsed (never imported) sources of the installed PyYAML. "
+        "R1: exception-escape closure of options_to_items - only TokenizeError may leave it; escape-table look-ups are dominated "
+        "by a membership test within the table's keys; int()/chr() on scanned text are discharged by the module's own character "
+        "facts (digit facts followed through helper parameters; hex escapes validated by a range(N) loop over peek(k), by "
+        "any()/all() or a for-loop over the prefix(N) slice, plus the code-point range test). "
+        "R2: every loop terminates: each cyclic path confined to the loop body strictly advances the cursor, a look-ahead counter "
+        "or the exit flag; conditional advances (_scan_line_break) are decided from character-class facts and per-function "
+        "summaries (must-advance, advancing set, truthy-implies-advanced); conditional-expression offsets count when every arm "
+        "is >= 1; two loops needing a relational argument are tabled with their hand proof and still checked in the weak form. "
+        "R3: no forward()/peek(k) can step over the END sentinel: facts from dominating guards, short-circuit operands, "
+        "disjunctions, aliases of peek() and caller-side entry facts exclude END; look-ahead counters carry 'no counted offset is "
+        "END'; N validated characters (loop / any-all / int() parse under except ValueError) justify forward(N); run-counting "
+        "methods of StreamBuffer are in bounds iff their set handles END the right way round; each arm of a conditional offset "
+        "is judged under its condition; a definite move (>= 1) over unexamined characters is a violation. "
+        "R4: escape tables cell by cell, the _CHARS_* classes against the unions their names state (line breaks read from "
+        "PyYAML's scan_line_break), the sentinel, and for the 13 ported scanner functions plus StreamBuffer.forward/peek/prefix "
+        "four order- and rename-insensitive fingerprints (guards = tested stream read x operator x character set, tagged with "
+        "their loop depth and, for if-statements, with what each branch consumes/emits/sets; stream effects; emissions, returns "
+        "and position stores; boolean flag operands) that must equal those of yaml/scanner.py and yaml/reader.py modulo a tabled "
+        "list of deliberate deviations. Both sides are first brought into a normal form: stream helpers inlined (also when "
+        "called inside an emission, with early returns), conditional expressions and `flag = <comparison>` as branches, "
+        "single-use locals forwarded, the three spellings of 'run of characters in S', the spellings of 'next N characters are "
+        "all in S' and `prefix(k) == const` vs per-offset peeks unified, PyYAML's flow-context code read with flow_level == 0. "
+        "A missing/replaced entry or an extra unconditional emission/effect is a violation; a conditional pure addition is "
+        "ANALYSIS-ERROR. "
+        "R5: every TokenizeError carries Position values taken from the stream (through locals, parameters, helpers, unpacked "
+        "sequences), get_position() binds each Position field to the cursor field of the same name, clone() shifts both marks "
+        "by (line_offset -> line, column_offset -> column) - directly, in a helper, or element-wise in a comprehension - with "
+        "context_mark guarded against None, and the offsets reach clone() un-crossed whenever either is non-zero. "
+        "R6: the state machine around the scanners: block/quoted scalars are dispatched on exactly the characters PyYAML's "
+        "fetch_more_tokens uses and get that character as style; scanners left/right of ':' get is_key True/False; every "
+        "pending key reaches a yield before it is overwritten or the generator ends and none is yielded twice; the result pair "
+        "is (key.value, value.value or ''); every value options_to_items returns is built in the iteration over _to_tokens "
+        "(no second, unscanned way of producing pairs)."
     ),
-    "not_decided": "equality of the returned (key, value) pairs with a YAML loader for every string (runtime-valued); boolean-flag context of guards (double/is_key/folded polarity) is only covered where it changes a fingerprint",
+    "not_decided": (
+        "equality of the returned (key, value) pairs with a YAML loader for every string (runtime-valued); two deliberate, "
+        "value-level choices of _tokenize are outside every rule: keys must start at column 0, and a '|'/'>' at column 0 after an "
+        "empty 'key:' is read as the next key; and/or structure of boolean tests and value-level arithmetic such as "
+        "`indent = 0 if is_key else 1`; the relational progress argument of the two tabled loops; whether a conditional "
+        "addition that PyYAML lacks is redundant"
+    ),
     "trusted_base": [
         "CPython ast",
-        "the installed PyYAML sources yaml/scanner.py, yaml/reader.py as oracle",
-        "tabled deliberate deviations from PyYAML (one reason each); PyYAML's flow-context branches are read with flow_level == 0 (an option block is block context)",
+        "the installed PyYAML sources yaml/scanner.py, yaml/reader.py as oracle (version recorded in the evidence notes)",
+        "tabled deliberate deviations from PyYAML (DEVIATIONS, one reason each); PyYAML's flow-context branches are read with flow_level == 0 (an option block is block context)",
         "two tabled loop proofs (C07.R2 ASSUMED)",
+        "int() rejects a string containing NUL; a buffer slice cut short by the end of input contains the sentinel",
     ],
     "assumptions": [
-        "StreamBuffer is only driven through peek/prefix/forward/get_position",
-        "text contains no assumptions on NUL: an embedded NUL is treated as end of input",
+        "StreamBuffer is only driven through peek/prefix/forward/get_position and methods that read the buffer without moving the cursor",
+        "an embedded NUL in the text is treated as end of input (no claim about characters after it)",
+        "output chunk lists are only joined/extended, so emitting '' or [] is a no-op",
     ],
 }
 
@@ -108,9 +134,12 @@ def _hex_value_ok(e9, fi: FunctionInfo, call: ast.Call) -> str | None:
     src_ = e9.prefix_len_name(call.args[0], fi, st)
     if src_ is None:
         return None
-    if src_[1] is not None and e9.intervening(cfg, src_[1], st, e9.killers(fi, {src_[0]})):
-        return None
-    g_ = e9.validated(fi, src_[0], st, within=frozenset("0123456789abcdefABCDEF"))
+    hexd = frozenset("0123456789abcdefABCDEF")
+    g_ = e9.validated_value(fi, call.args[0].id, st, within=hexd) if isinstance(call.args[0], ast.Name) else None
+    if g_ is None:
+        if src_[1] is not None and e9.intervening(cfg, src_[1], st, e9.killers(fi, {src_[0]})):
+            return None
+        g_ = e9.validated(fi, src_[0], st, within=hexd)
     if g_ is None:
         return None
     lo, _ = e9.sign_info(fi, src_[0], st)
@@ -817,6 +846,37 @@ class NotConst(Exception):
     pass
 
 
+def _run_methods(m: Module) -> dict:
+    """{method name: 'in' | 'notin'} for the methods of the port's stream class that only measure the run of characters
+    at the cursor that are (not) in their argument: `k = 0; while self._buffer[self._index + k] [not] in chars: k += 1; return k`"""
+    cached = m.__dict__.get("_c07_run_methods")
+    if cached is not None:
+        return cached
+    out: dict = {}
+    ci = m.classes.get("StreamBuffer")
+    for name, f in (ci.methods.items() if ci is not None else ()):
+        body = [st for st in f.node.body if not (isinstance(st, ast.Expr) and isinstance(st.value, ast.Constant))]
+        params = f.params[1:]
+        if len(body) != 3 or len(params) != 1:
+            continue
+        a0, w, r = body
+        if not (isinstance(a0, ast.Assign) and len(a0.targets) == 1 and isinstance(a0.targets[0], ast.Name) and isinstance(a0.value, ast.Constant) and a0.value.value == 0):
+            continue
+        k = a0.targets[0].id
+        if not (isinstance(r, ast.Return) and isinstance(r.value, ast.Name) and r.value.id == k):
+            continue
+        if not (isinstance(w, ast.While) and not w.orelse and len(w.body) == 1 and isinstance(w.body[0], ast.AugAssign) and unparse(w.body[0]) == f"{k} += 1"):
+            continue
+        t = w.test
+        if not (isinstance(t, ast.Compare) and len(t.ops) == 1 and isinstance(t.ops[0], (ast.In, ast.NotIn)) and isinstance(t.comparators[0], ast.Name) and t.comparators[0].id == params[0]):
+            continue
+        if unparse(t.left) not in (f"self._buffer[self._index + {k}]", f"self._buffer[{k} + self._index]", f"self.peek({k})"):
+            continue
+        out[name] = "in" if isinstance(t.ops[0], ast.In) else "notin"
+    m.__dict__["_c07_run_methods"] = out
+    return out
+
+
 class Side:
     """Normalises expressions of one function so that the port and its original read alike."""
 
@@ -844,6 +904,8 @@ class Side:
         self._busy = set()
         self.depth = 0
         self._validation = None
+        self._runs = None
+        self._lengths = None
 
     def _bind(self, t, v):
         if isinstance(t, ast.Name):
@@ -896,9 +958,13 @@ class Side:
             if isinstance(f, ast.Attribute) and self.is_recv(f.value):
                 a = f.attr
                 if a in ("peek", "prefix", "forward"):
+                    if a == "forward" and id(e) in self.runs()[2]:
+                        return "forward(n)"  # the step of a `while peek() in S: forward()` run
                     dflt = "0" if a == "peek" else "1"
                     oa = e.args[0] if e.args else next((k.value for k in e.keywords if k.arg in ("index", "length")), None)
-                    return f"{a}({self.norm(oa) if oa is not None else dflt})"
+                    return f"{a}({self.offnorm(oa) if oa is not None else dflt})"
+                if a in _run_methods(self.m):
+                    return "n"  # length of a run of characters at the cursor
                 if a in ("get_position", "get_mark"):
                     return "mark()"
                 if a in CANON_Y:
@@ -962,6 +1028,100 @@ class Side:
             return "[" + ",".join(self.norm(x) for x in e.elts) + "]"
         return type(e).__name__
 
+    def loop_tag(self, node) -> str:
+        """'@L..' per enclosing loop: a test on the cursor made once per iteration is not the same test made once"""
+        d = 0
+        p = parent(node)
+        while p is not None and p is not self.fi.node:
+            if isinstance(p, (ast.While, ast.For)):
+                d += 1
+            p = parent(p)
+        return "@" + "L" * d if d else ""
+
+    def tagged(self, g: tuple, node) -> tuple:
+        """stream reads carry their loop depth; tests on plain values do not (they may be hoisted freely)"""
+        if g[0].startswith(("peek(", "prefix(", "buffer[", ".", "run", "all:")) or (g[0].endswith("()") and g[0][:-2] in CANON_Y):
+            return (g[0] + self.loop_tag(node),) + tuple(g[1:])
+        return g
+
+    def length_names(self) -> set:
+        """locals used as the length of a forward()/prefix(): testing them only guards a no-op"""
+        if self._lengths is None:
+            self._lengths = set()
+            for n in self.fi.local_nodes():
+                if isinstance(n, ast.Call) and isinstance(n.func, ast.Attribute) and self.is_recv(n.func.value) and n.func.attr in ("forward", "prefix"):
+                    oa = n.args[0] if n.args else next((k.value for k in n.keywords if k.arg == "length"), None)
+                    if isinstance(oa, ast.Name):
+                        self._lengths.add(oa.id)
+        return self._lengths
+
+    def offnorm(self, e) -> str:
+        """an offset/length: a constant, the loop index of a validation loop, or 'some computed count' (n, n+1)"""
+        s_ = self.norm(e)
+        if re.fullmatch(r"-?\d+|i|n|n\+1", s_):
+            return s_
+        if isinstance(e, ast.BinOp) and isinstance(e.op, ast.Add) and isinstance(e.right, ast.Constant) and e.right.value == 1:
+            return "n+1"
+        return "n"
+
+    def runs(self):
+        """'skip / measure the run of characters (not) in S at the cursor' in its three spellings reads as one guard:
+        `while peek() in S: forward()`, `k = 0; while peek(k) in S: k += 1`, and a StreamBuffer run-counting method.
+        -> ([guard], consumed compare nodes, ids of the forward() steps, ids of absorbed peek reads)"""
+        if self._runs is not None:
+            return self._runs
+        guards, consumed, steps, reads = [], set(), set(), set()
+        self._runs = (guards, consumed, steps, reads)
+        methods = _run_methods(self.m) if not self.yaml else {}
+
+        def run_guard(t, offset_kind):
+            flip = False
+            while isinstance(t, ast.UnaryOp) and isinstance(t.op, ast.Not):
+                t, flip = t.operand, not flip
+            if not (isinstance(t, ast.Compare) and len(t.ops) == 1 and isinstance(t.ops[0], (ast.Eq, ast.NotEq, ast.In, ast.NotIn))):
+                return None
+            left = t.left
+            if not (isinstance(left, ast.Call) and isinstance(left.func, ast.Attribute) and self.is_recv(left.func.value) and left.func.attr == "peek"):
+                return None
+            oa = left.args[0] if left.args else next((k.value for k in left.keywords if k.arg == "index"), None)
+            if offset_kind == "cursor" and not (oa is None or (isinstance(oa, ast.Constant) and oa.value == 0)):
+                return None
+            if offset_kind != "cursor" and not (isinstance(oa, ast.Name) and oa.id == offset_kind):
+                return None
+            try:
+                v = self.const(t.comparators[0])
+            except NotConst:
+                return None
+            if isinstance(t.ops[0], (ast.Eq, ast.NotEq)) and not (isinstance(v, str) and len(v) == 1):
+                return None
+            cs = as_charset(v)
+            if cs is None:
+                return None
+            pos = isinstance(t.ops[0], (ast.Eq, ast.In)) != flip
+            return ("run", "in" if pos else "notin", "".join(sorted(cs))), t, left
+
+        for n in self.fi.local_nodes():
+            if isinstance(n, ast.While) and not n.orelse and len(n.body) == 1:
+                b = n.body[0]
+                if isinstance(b, ast.Expr) and isinstance(b.value, ast.Call) and isinstance(b.value.func, ast.Attribute) and self.is_recv(b.value.func.value) and b.value.func.attr == "forward":
+                    oa = b.value.args[0] if b.value.args else next((k.value for k in b.value.keywords if k.arg == "length"), None)
+                    if oa is None or (isinstance(oa, ast.Constant) and oa.value == 1):
+                        r = run_guard(n.test, "cursor")
+                        if r is not None:
+                            guards.append(self.tagged(r[0], n)); consumed.add(r[1]); steps.add(id(b.value)); reads.add(id(r[2]))
+                elif isinstance(b, ast.AugAssign) and isinstance(b.target, ast.Name) and isinstance(b.op, ast.Add) and isinstance(b.value, ast.Constant) and b.value.value == 1:
+                    r = run_guard(n.test, b.target.id)
+                    if r is not None:
+                        guards.append(self.tagged(r[0], n)); consumed.add(r[1]); reads.add(id(r[2]))
+            elif isinstance(n, ast.Call) and isinstance(n.func, ast.Attribute) and self.is_recv(n.func.value) and n.func.attr in methods and len(n.args) == 1:
+                try:
+                    cs = as_charset(self.const(n.args[0]))
+                except NotConst:
+                    cs = None
+                if cs is not None:
+                    guards.append(self.tagged(("run", methods[n.func.attr], "".join(sorted(cs))), n))
+        return self._runs
+
     # guards -----------------------------------------------------------------
     def lo(self, e) -> str:
         """Stream reads keep their identity; everything else (locals, parameters, arithmetic) is just a value."""
@@ -971,6 +1131,9 @@ class Side:
         return "v"
 
     def guard(self, c: ast.Compare):
+        return self.tagged(self._guard(c), c)
+
+    def _guard(self, c: ast.Compare):
         op = OPS.get(type(c.ops[0]), "?")
         lhs = self.lo(c.left)
         try:
@@ -1010,7 +1173,7 @@ class Side:
             if isinstance(f, ast.Attribute) and self.is_recv(f.value):
                 if f.attr == "forward" or f.attr in CANON_Y:
                     out.append("do:" + self.norm(n))
-                elif f.attr in ("peek", "prefix") and id(n) not in self.validation()[2]:
+                elif f.attr in ("peek", "prefix") and id(n) not in self.validation()[2] and id(n) not in self.runs()[3]:
                     out.append("read:" + self.norm(n))
             elif isinstance(f, ast.Name) and f.id in CANON:
                 out.append("do:" + self.norm(n))
@@ -1021,6 +1184,9 @@ class Side:
                 a0 = n.args[0]
                 if (isinstance(a0, ast.Constant) and a0.value == "") or (isinstance(a0, (ast.List, ast.Tuple)) and not a0.elts):
                     continue  # emitting nothing
+                if f.attr == "extend" and isinstance(a0, (ast.List, ast.Tuple)) and not any(isinstance(x, ast.Starred) for x in a0.elts):
+                    out += [f"emit:append({self.norm(x)})" for x in a0.elts]  # extending by a literal list is appending its items
+                    continue
                 out.append(f"emit:{f.attr}({self.norm(a0)})")
         return out
 
@@ -1064,11 +1230,21 @@ class Side:
                         except NotConst:
                             cs = None
                         if cs is not None:
-                            guards.append((f"all:prefix({self.norm(n.iter.args[0])})", "in", "".join(sorted(cs))))
+                            guards.append(self.tagged((f"all:prefix({self.offnorm(n.iter.args[0])})", "in", "".join(sorted(cs))), n))
                             consumed.add(st.test)
                             for c in ast.walk(n):
                                 if isinstance(c, ast.Call) and isinstance(c.func, ast.Attribute) and c.func.attr == "peek" and isinstance(_offarg(c), ast.Name) and _offarg(c).id == k:
                                     reads.add(id(c))
+            elif isinstance(n, ast.For) and isinstance(n.target, ast.Name) and self.norm(n.iter).startswith("prefix("):
+                for st in n.body:
+                    if isinstance(st, ast.If) and not st.orelse and isinstance(st.body[-1], (ast.Raise, ast.Return)) and isinstance(st.test, ast.Compare) and len(st.test.ops) == 1 and isinstance(st.test.ops[0], ast.NotIn) and isinstance(st.test.left, ast.Name) and st.test.left.id == n.target.id:
+                        try:
+                            cs = as_charset(self.const(st.test.comparators[0]))
+                        except NotConst:
+                            cs = None
+                        if cs is not None:
+                            guards.append(self.tagged((f"all:{self.norm(n.iter)}", "in", "".join(sorted(cs))), n))
+                            consumed.add(st.test)
             elif isinstance(n, ast.Call) and isinstance(n.func, ast.Name) and n.func.id in ("any", "all") and len(n.args) == 1 and isinstance(n.args[0], ast.GeneratorExp):
                 ge = n.args[0]
                 if len(ge.generators) != 1 or ge.generators[0].ifs or not isinstance(ge.generators[0].target, ast.Name):
@@ -1084,7 +1260,7 @@ class Side:
                     cs = None
                 if cs is None or not src_.startswith("prefix("):
                     continue
-                guards.append((f"all:{src_}", "in", "".join(sorted(cs))))
+                guards.append(self.tagged((f"all:{src_}", "in", "".join(sorted(cs))), n))
                 consumed.add(elt)
                 # a length test on the same slice next to it belongs to the idiom (a short slice contains the sentinel anyway)
                 p = parent(n)
@@ -1119,7 +1295,7 @@ class Side:
             return None
         if not (isinstance(v, str) and len(v) >= 2 and lhs == f"prefix({len(v)})"):
             return None
-        return [(f"peek({i})", "in", ch) for i, ch in enumerate(v)]
+        return [self.tagged((f"peek({i})", "in", ch), c) for i, ch in enumerate(v)]
 
     def merged(self, t):
         """`x == a or x == b` / `x != a and x != b` read as one membership guard: (guard, compare nodes) | None"""
@@ -1135,8 +1311,9 @@ class Side:
         nodes = self.fi.local_nodes()
         guards = Counter()
         vg, vc, _ = self.validation()
-        consumed = set(vc)
-        for g in vg:
+        rg, rc_, _, _ = self.runs()
+        consumed = set(vc) | set(rc_)
+        for g in list(vg) + list(rg):
             guards[g] += 1
         premerged = {}
         for n in nodes:
@@ -1237,7 +1414,7 @@ class Side:
                 while isinstance(v, ast.UnaryOp) and isinstance(v.op, ast.Not):
                     v, pol = v.operand, ("" if pol else "not ")
                 if isinstance(v, ast.Name):
-                    if v.id in self.aug:
+                    if v.id in self.aug or v.id in self.length_names():
                         continue  # `if length:` around forward(length)/prefix(length): guarding a no-op changes nothing
                     if not pol and isinstance(n, ast.If) and v is n.test and not n.orelse and all(
                         isinstance(b, ast.Expr) and isinstance(b.value, ast.Call) and isinstance(b.value.func, ast.Attribute) and b.value.func.attr in ("append", "extend")
@@ -1330,7 +1507,10 @@ def _blocks(node):
 _RESULT = "__result__"
 
 
-def _tail_returns(stmts: list, target) -> list:
+_CONSUMER = "__consumer__"
+
+
+def _tail_returns(stmts: list, target, consumer: str | None = None) -> list:
     """the helper body with every `return v` turned into `<result> = v` - possible when each return is in tail position
     (`if c: ...; return` followed by more code becomes if/else); raises NotConst otherwise"""
 
@@ -1338,6 +1518,10 @@ def _tail_returns(stmts: list, target) -> list:
         return any(isinstance(r, ast.Return) for n in nodes for r in ast.walk(n))
 
     def emit(v):
+        if consumer is not None:
+            if v is None:
+                return []
+            return [ast.Expr(value=ast.Call(func=ast.Attribute(value=ast.Name(id=_CONSUMER, ctx=ast.Load()), attr=consumer, ctx=ast.Load()), args=[v], keywords=[]))]
         if target is None:
             return [ast.Expr(value=v)] if v is not None and not isinstance(v, (ast.Constant, ast.Name)) else []
         return [ast.Assign(targets=[ast.Name(id=_RESULT, ctx=ast.Store())], value=v if v is not None else ast.Constant(value=None))]
@@ -1355,13 +1539,13 @@ def _tail_returns(stmts: list, target) -> list:
         body_ret, else_ret = has_return(st.body), has_return(st.orelse)
         ends = lambda b: bool(b) and isinstance(b[-1], (ast.Return, ast.Raise))
         if body_ret and ends(st.body) and not (else_ret and not ends(st.orelse) and rest):
-            new = ast.If(test=st.test, body=_tail_returns(st.body, target) or [ast.Pass()], orelse=_tail_returns(list(st.orelse) + (rest if not ends(st.orelse) else []), target))
+            new = ast.If(test=st.test, body=_tail_returns(st.body, target, consumer) or [ast.Pass()], orelse=_tail_returns(list(st.orelse) + (rest if not ends(st.orelse) else []), target, consumer))
             return out + [new]
         if else_ret and ends(st.orelse) and not body_ret:
-            new = ast.If(test=st.test, body=_tail_returns(list(st.body) + rest, target) or [ast.Pass()], orelse=_tail_returns(st.orelse, target))
+            new = ast.If(test=st.test, body=_tail_returns(list(st.body) + rest, target, consumer) or [ast.Pass()], orelse=_tail_returns(st.orelse, target, consumer))
             return out + [new]
         raise NotConst("return not in tail position")
-    if target is not None:
+    if target is not None and consumer is None:
         out += emit(None)
     return out
 
@@ -1370,7 +1554,15 @@ def _inline_call(st, fi: FunctionInfo, recv: str | None, counter: list, stack: t
     """statements replacing ``st`` when it is `helper(...)` / `x = helper(...)` on an unpaired module helper that
     returns only as its last statement; None when the statement is not of that shape"""
     m = fi.module
-    if isinstance(st, ast.Expr) and isinstance(st.value, ast.Call):
+    consumer = sink = None
+    if (
+        isinstance(st, ast.Expr) and isinstance(st.value, ast.Call) and isinstance(st.value.func, ast.Attribute) and st.value.func.attr in ("extend", "append")
+        and isinstance(st.value.func.value, ast.Name) and len(st.value.args) == 1 and not st.value.keywords and isinstance(st.value.args[0], ast.Call)
+        and isinstance(st.value.args[0].func, ast.Name) and st.value.args[0].func.id in m.functions
+    ):
+        # `out.extend(helper(...))`: every value the helper returns is handed to that consumer
+        call, target, consumer, sink = st.value.args[0], None, st.value.func.attr, st.value.func.value.id
+    elif isinstance(st, ast.Expr) and isinstance(st.value, ast.Call):
         call, target = st.value, None
     elif isinstance(st, ast.Assign) and len(st.targets) == 1 and isinstance(st.targets[0], ast.Name) and isinstance(st.value, ast.Call):
         call, target = st.value, st.targets[0].id
@@ -1394,7 +1586,7 @@ def _inline_call(st, fi: FunctionInfo, recv: str | None, counter: list, stack: t
     if nested:
         return None
     try:
-        body = _tail_returns(body, target)
+        body = _tail_returns(body, target, consumer)
     except NotConst:
         return None
     rets = []
@@ -1429,6 +1621,8 @@ def _inline_call(st, fi: FunctionInfo, recv: str | None, counter: list, stack: t
     mapping.pop(_RESULT, None)
     if target is not None:
         mapping[_RESULT] = target
+    if sink is not None:
+        mapping[_CONSUMER] = sink
     out = pre
     for b in body:
         out.append(_Rename(mapping).visit(b))
@@ -1581,7 +1775,7 @@ def r4_fingerprints(corpus: Corpus, rep: Report, tier: str) -> None:
         lacks = False
         for kind, x, yv in zip(("guards", "effects", "emits", "flags"), a, b):
             allowed = DEVIATIONS.get((o, kind), {}).get("yaml", {})
-            if any(n > allowed.get(e, (0, ""))[0] for e, n in (yv - x).items()):
+            if any(rest for _, rest, _ in _unexplained(yv - x, allowed)):
                 lacks = True
         for kind, x, yv in zip(("guards", "effects", "emits", "flags"), a, b):
             dev = DEVIATIONS.get((o, kind), {})
@@ -1589,9 +1783,9 @@ def r4_fingerprints(corpus: Corpus, rep: Report, tier: str) -> None:
             for e, n in (x & yv).items():
                 rep.ok("C07.R4", f"{of.fq}|{kind}|{_fmt(e)}", of.site(), f"x{n}, as in {y}")
             for side, diff, allowed in (("opt", only_o, dev.get("opt", {})), ("yaml", only_y, dev.get("yaml", {}))):
-                for e, n in diff.items():
-                    cnt, reason = allowed.get(e, (0, ""))
-                    if n <= cnt:
+                for e, rest, reason in _unexplained(diff, allowed):
+                    n, cnt = rest, 0
+                    if rest == 0:
                         rep.assumed("C07.R4", f"{of.fq}|{kind}|{'only here' if side == 'opt' else 'only in PyYAML'}: {_fmt(e)}", of.site(), f"deliberate deviation: {reason}")
                     elif side == "opt" and not lacks and kind in ("effects", "emits") and isinstance(e, str) and e.startswith(("do:", "emit:")) and side_o.unconditional(e) > side_y.unconditional(e):
                         rep.violation(
@@ -1621,6 +1815,26 @@ def r4_fingerprints(corpus: Corpus, rep: Report, tier: str) -> None:
                             of.site(),
                             f"PyYAML's {y} has {kind[:-1]} {_fmt(e)} (x{n - cnt}) that {o} lacks: the port no longer tests/consumes/emits what the reference scanner does",
                         )
+
+
+def _base(e):
+    """a fingerprint entry without its loop-depth tag (the deviation table does not care where in a loop a deviation sits)"""
+    if isinstance(e, tuple) and isinstance(e[0], str) and "@" in e[0]:
+        return (e[0].split("@", 1)[0],) + tuple(e[1:])
+    return e
+
+
+def _unexplained(diff: Counter, allowed: dict) -> list:
+    """[(entry, count not covered by the deviation table, reason of the covering entry | None)]"""
+    budget = {k_: v[0] for k_, v in allowed.items()}
+    out = []
+    for e, n in sorted(diff.items(), key=lambda kv: str(kv[0])):
+        b = _base(e)
+        use = min(n, budget.get(b, 0))
+        if use:
+            budget[b] -= use
+        out.append((e, n - use, allowed[b][1] if b in allowed else None))
+    return out
 
 
 def _fmt(e) -> str:
@@ -1735,6 +1949,16 @@ class E9:
                 return (f.attr, None)
             if f.attr == "get_position":
                 return ("pos", None)
+            runs = _run_methods(self.m)
+            if f.attr in runs:
+                return ("run", runs[f.attr])  # measures the run of characters (not) in its argument; the cursor stays
+            meth = self.c.lookup_method(self.sb, f.attr)
+            if meth is not None and not any(
+                (isinstance(n, (ast.Assign, ast.AugAssign, ast.AnnAssign)) and any(isinstance(t, ast.Attribute) for t in ast.walk(n.targets[0] if isinstance(n, ast.Assign) else n.target)))
+                or (isinstance(n, ast.Call) and not (isinstance(n.func, ast.Attribute) and n.func.attr in ("peek", "prefix", "get_position")) and not isinstance(n.func, ast.Name))
+                for n in meth.local_nodes()
+            ):
+                return ("pure", None)  # reads the buffer only
             raise Unsupported(f"StreamBuffer method {f.attr}() at {fi.module.site(call)} is not one the character analysis knows")
         if isinstance(f, ast.Name) and f.id in self.m.functions and not self.m.functions[f.id].is_lambda:
             return ("func", self.m.functions[f.id])
@@ -2044,6 +2268,8 @@ class E9:
         if isinstance(v, ast.IfExp):
             a, b = self.value_min(v.body), self.value_min(v.orelse)
             return None if a is None or b is None else min(a, b)
+        if isinstance(v, ast.Call) and isinstance(v.func, ast.Attribute) and v.func.attr in _run_methods(self.m):
+            return 0  # a run length
         if isinstance(v, ast.Subscript) and isinstance(v.value, ast.Name) and v.value.id in self.m.const_nodes:
             try:
                 tab = self.m.const(v.value.id)
@@ -2090,6 +2316,22 @@ class E9:
                     if hit and not self.intervening(cfg, d[1], st, assigns):
                         return True
         return False
+
+    def run_in_bounds(self, call: ast.Call, fi):
+        """(ok?, why) for a run-counting call: counting characters *in* S stops at END iff END is not in S, counting
+        characters *not in* S stops at END iff END is in S; None when S is not a constant"""
+        pol = self.classify(call, fi)[1]
+        if len(call.args) != 1:
+            return None
+        try:
+            cs = as_charset(self.m.eval_const(call.args[0]))
+        except Unsupported:
+            cs = None
+        if cs is None:
+            return None
+        if pol == "in":
+            return (END not in cs, f"the run consists of characters in {''.join(sorted(cs))!r}" + ("" if END not in cs else ", which includes END"))
+        return (END in cs, f"the run ends at the first character in {''.join(sorted(cs))!r}" + (", END among them" if END in cs else ", which does not include END"))
 
     def offset_positive(self, a, fi, st) -> bool:
         """forward(a) moves by at least one character (a conditional expression is a branch: every arm must)"""
@@ -2305,32 +2547,53 @@ class E9:
         return None
 
     def validated_slice(self, fi, n_name: str, st, within=None):
-        """an `if any(c not in S for c in prefix(N)): raise` (or `not all(c in S ...)`) guard before ``st``, END not in S:
-        a slice cut short by the end of the buffer contains the sentinel, so passing the guard means N non-END characters"""
+        """a character-by-character check of prefix(N) before ``st`` with the cursor unmoved since the slice was taken:
+        a slice cut short by the end of the buffer contains the sentinel, so passing the check means N non-END characters"""
         cfg = get_cfg(fi)
-        for g_ in cfg.nodes:
-            if not (isinstance(g_, ast.If) and not g_.orelse and g_.body and isinstance(g_.body[-1], (ast.Raise, ast.Return)) and ("F", g_) in cfg.dom().get(st, ())):
+        for it, node in self._slice_checks(fi, st, within):
+            src_ = self.prefix_len_name(it, fi, node)
+            if src_ is None or src_[0] != n_name:
                 continue
-            for t, pol in split_facts(g_.test, False):
-                if not (isinstance(t, ast.Call) and isinstance(t.func, ast.Name) and t.func.id in ("any", "all") and (t.func.id == "all") == pol and len(t.args) == 1 and isinstance(t.args[0], ast.GeneratorExp)):
-                    continue
-                ge = t.args[0]
-                if len(ge.generators) != 1 or ge.generators[0].ifs or not isinstance(ge.generators[0].target, ast.Name):
-                    continue
-                c, elt = ge.generators[0].target.id, ge.elt
-                want = ast.In if t.func.id == "all" else ast.NotIn
-                if not (isinstance(elt, ast.Compare) and len(elt.ops) == 1 and isinstance(elt.ops[0], want) and isinstance(elt.left, ast.Name) and elt.left.id == c):
-                    continue
-                try:
-                    cs = as_charset(self.m.eval_const(elt.comparators[0]))
-                except Unsupported:
-                    cs = None
-                src_ = self.prefix_len_name(ge.generators[0].iter, fi, g_)
-                if cs is None or END in cs or src_ is None or src_[0] != n_name or (within is not None and not cs <= within):
-                    continue
-                origin = src_[1] if src_[1] is not None else g_
-                if not self.intervening(cfg, origin, st, self.killers(fi, {n_name})):
-                    return g_
+            origin = src_[1] if src_[1] is not None else node
+            if not self.intervening(cfg, origin, st, self.killers(fi, {n_name})):
+                return node
+        return None
+
+    def _slice_checks(self, fi, st, within=None):
+        """[(iterated expression, guard/loop node)] for `if any(c not in S for c in X): raise`, `not all(c in S ...)` and
+        `for c in X: if c not in S: raise` that must have passed before ``st`` (END not in S, S within ``within``)"""
+        cfg = get_cfg(fi)
+        out = []
+
+        def good(cmp_, var, want):
+            if not (isinstance(cmp_, ast.Compare) and len(cmp_.ops) == 1 and isinstance(cmp_.ops[0], want) and isinstance(cmp_.left, ast.Name) and cmp_.left.id == var):
+                return False
+            try:
+                cs = as_charset(self.m.eval_const(cmp_.comparators[0]))
+            except Unsupported:
+                return False
+            return cs is not None and END not in cs and (within is None or cs <= within)
+
+        for g_ in cfg.nodes:
+            if isinstance(g_, ast.If) and not g_.orelse and g_.body and isinstance(g_.body[-1], (ast.Raise, ast.Return)) and ("F", g_) in cfg.dom().get(st, ()):
+                for t, pol in split_facts(g_.test, False):
+                    if isinstance(t, ast.Call) and isinstance(t.func, ast.Name) and t.func.id in ("any", "all") and (t.func.id == "all") == pol and len(t.args) == 1 and isinstance(t.args[0], ast.GeneratorExp):
+                        ge = t.args[0]
+                        if len(ge.generators) == 1 and not ge.generators[0].ifs and isinstance(ge.generators[0].target, ast.Name) and good(ge.elt, ge.generators[0].target.id, ast.In if t.func.id == "all" else ast.NotIn):
+                            out.append((ge.generators[0].iter, g_))
+            elif isinstance(g_, ast.For) and isinstance(g_.target, ast.Name) and ("F", g_) in cfg.dom().get(st, ()) and not any(isinstance(b, ast.Break) for b in ast.walk(g_)):
+                for s_ in g_.body:
+                    if isinstance(s_, ast.If) and not s_.orelse and s_.body and isinstance(s_.body[-1], (ast.Raise, ast.Return)) and good(s_.test, g_.target.id, ast.NotIn):
+                        out.append((g_.iter, g_))
+        return out
+
+    def validated_value(self, fi, alias: str, st, within=None):
+        """the local ``alias`` (a slice taken earlier) was checked character by character before ``st``"""
+        if len(self.defs_of(fi, alias)) != 1:
+            return None
+        for it, node in self._slice_checks(fi, st, within):
+            if isinstance(it, ast.Name) and it.id == alias:
+                return node
         return None
 
     def validated_parse(self, fi, n_name: str, st):
@@ -2426,6 +2689,10 @@ def loop_verdict(e9: E9, fi: FunctionInfo, w: ast.While):
         for c in [h] + list(walk_local(h)):
             if isinstance(c, ast.Call) and e9.classify(c, fi)[0] == "peek" and _offarg(c) is not None:
                 peeked |= _names(_offarg(c))
+        if fi.cls is not None and fi.cls.fq == e9.sb.fq:
+            for c in [h] + list(walk_local(h)):
+                if isinstance(c, ast.Subscript) and unparse(c.value) == "self._buffer":  # the stream's own look-ahead read
+                    peeked |= _names(c.slice) - {"self"}
     for s in inside:
         if isinstance(s, ast.AugAssign) and isinstance(s.target, ast.Name) and isinstance(s.value, ast.Constant) and isinstance(s.value.value, int) and s.value.value >= 1:
             k = s.target.id
@@ -2471,7 +2738,7 @@ def loop_verdict(e9: E9, fi: FunctionInfo, w: ast.While):
     if cfg.paths_avoiding(start, w, lambda n: n in weak or outside(n)):
         return "broken", "a cyclic path neither moves the cursor, nor a look-ahead counter, nor sets the exit flag"
     side = Side(fi, False)
-    sig = tuple(sorted(_fmt(side.guard(c)) for c in ast.walk(w.test) if isinstance(c, ast.Compare) and len(c.ops) == 1))
+    sig = tuple(sorted(_fmt(side._guard(c)) for c in ast.walk(w.test) if isinstance(c, ast.Compare) and len(c.ops) == 1))
     reason = ASSUMED_LOOPS.get((fi.qualname, sig))
     if reason:
         return "assumed", reason + " (weak form checked: every cyclic path contains a may-advance call)"
@@ -2495,6 +2762,13 @@ def r2_termination(corpus: Corpus, rep: Report, tier: str):
                     rep.ok("C07.R2", k, site, "bounded: range()")
                 elif isinstance(it, ast.Call) and isinstance(it.func, ast.Name) and it.func.id in m.functions and m.functions[it.func.id].is_generator():
                     rep.ok("C07.R2", k, site, f"delegated: the generator {it.func.id} ends iff its own loops do (checked here)")
+                elif isinstance(it, (ast.Tuple, ast.List, ast.Constant)) or (isinstance(it, ast.Call) and e9.classify(it, fi)[0] == "prefix"):
+                    rep.ok("C07.R2", k, site, "bounded: a literal / a slice of the buffer")
+                elif isinstance(it, ast.Name) and it.id not in fi.params and all(
+                    isinstance(d, (ast.Assign, ast.AnnAssign)) and (isinstance(d.value, (ast.List, ast.Tuple, ast.Constant, ast.ListComp, ast.JoinedStr)) or (isinstance(d.value, ast.Call) and e9.classify(d.value, fi)[0] in ("prefix", "neutral") and not (isinstance(d.value.func, ast.Name) and d.value.func.id in m.functions)))
+                    for d in e9.defs_of(fi, it.id)
+                ) and e9.defs_of(fi, it.id):
+                    rep.ok("C07.R2", k, site, f"bounded: {it.id} is a finite local value (string / list), not a generator of the module")
                 else:
                     rep.error("C07.R2", f"{site} for-loop over {short(it, 40)}: iteration source not understood")
                 continue
@@ -2507,7 +2781,7 @@ def r2_termination(corpus: Corpus, rep: Report, tier: str):
                 rep.violation("C07.R2", k, site, f"loop may not terminate: {why}")
             else:
                 rep.error("C07.R2", f"{site} {k}: {why}")
-    rep.expect_min("C07.R2", 22, "loops of the option tokenizer")
+    rep.expect_min("C07.R2", 12, "loops of the option tokenizer")
 
 
 # ---------------------------------------------------------------------------
@@ -2529,7 +2803,20 @@ def r3_in_bounds(corpus: Corpus, rep: Report, tier: str):
         seen: Counter = Counter()
         calls = sorted((c for c in fi.local_nodes() if isinstance(c, ast.Call)), key=lambda c: (c.lineno, c.col_offset))
         for call in calls:
-            kind, _ = e9.classify(call, fi)
+            kind, pol_ = e9.classify(call, fi)
+            if kind == "run":
+                # the stream's own run counter: it stops at the sentinel only if the set says so
+                k = f"{fi.fq}|{unparse(call)}"
+                seen[k] += 1
+                k += f" #{seen[k]}" if seen[k] > 1 else ""
+                why = e9.run_in_bounds(call, fi)
+                if why is None:
+                    rep.error("C07.R3", f"{m.site(call)} {unparse(call)}: character set argument not a constant")
+                elif why[0]:
+                    rep.ok("C07.R3", k, m.site(call), why[1])
+                else:
+                    rep.violation("C07.R3", k, m.site(call), f"{unparse(call)}: {why[1]}; the count runs over the end-of-buffer sentinel (IndexError out of options_to_items)")
+                continue
             if kind not in ("forward", "peek"):
                 continue
             a = _offarg(call)
@@ -2549,6 +2836,18 @@ def r3_in_bounds(corpus: Corpus, rep: Report, tier: str):
                 if len(ds) == 1 and isinstance(ds[0], ast.Assign) and len(ds[0].targets) == 1 and isinstance(ds[0].value, (ast.IfExp, ast.Constant)) and e9.value_min(ds[0].value) is not None:
                     if not e9.intervening(cfg, ds[0], st, e9.killers(fi)):
                         a = ds[0].value
+                elif len(ds) == 1 and isinstance(ds[0], ast.Assign) and len(ds[0].targets) == 1 and isinstance(ds[0].value, ast.Call) and e9.classify(ds[0].value, fi)[0] == "run":
+                    if not e9.intervening(cfg, ds[0], st, e9.killers(fi)):
+                        a = ds[0].value  # the run was measured at this very cursor position
+            if isinstance(a, ast.Call) and e9.classify(a, fi)[0] == "run" and kind in ("forward", "peek"):
+                why = e9.run_in_bounds(a, fi)
+                if why is None:
+                    rep.error("C07.R3", f"{site} {unparse(call)}: character set of the run not a constant")
+                elif why[0]:
+                    rep.ok("C07.R3", k, site, "J3: " + why[1])
+                else:
+                    rep.violation("C07.R3", k, site, f"{unparse(call)}: {why[1]}; the {what} can pass the END sentinel (IndexError out of options_to_items)")
+                continue
             if isinstance(a, ast.IfExp) and all(isinstance(x, ast.Constant) and isinstance(x.value, int) and not isinstance(x.value, bool) for x, _ in e9.offset_arms(a)):
                 # a conditional-expression offset is a branch: judge every arm under its condition
                 problems = []
@@ -2607,7 +2906,7 @@ def r3_in_bounds(corpus: Corpus, rep: Report, tier: str):
                     why = f"J4: peek({nm}) in {f!r}; " + why
             if ok:
                 rep.ok("C07.R3", k, site, ("J3: " if not plus else "") + why)
-            elif "not a look-ahead counter" in why and not any(isinstance(L, ast.For) and any(isinstance(c, ast.Call) and e9.classify(c, fi)[0] == "peek" for c in ast.walk(L)) for L in ast.walk(fi.node)):
+            elif "not a look-ahead counter" in why and (e9.sign_info(fi, nm, st)[0] or 0) < 1 and not any(isinstance(L, ast.For) and any(isinstance(c, ast.Call) and e9.classify(c, fi)[0] == "peek" for c in ast.walk(L)) for L in ast.walk(fi.node)):
                 # the offset is computed some other way and nothing in the function looks like the validation idiom
                 rep.error("C07.R3", f"{site} {unparse(call)}: {why}; no counting or validating loop recognised - idiom outside the analysed subset")
             else:
@@ -2633,7 +2932,7 @@ def r3_in_bounds(corpus: Corpus, rep: Report, tier: str):
         rep.ok("C07.R3", k, m.site(lp[0]))
     else:
         rep.violation("C07.R3", k, fw.site(), "forward(n) no longer moves the cursor by exactly one character per counted step: the END-free look-ahead counts do not bound the cursor any more")
-    rep.expect_min("C07.R3", 35, "forward()/peek(k) sites")
+    rep.expect_min("C07.R3", 20, "forward()/peek(k) sites")
 
 
 # ---------------------------------------------------------------------------
@@ -2830,6 +3129,54 @@ def r6_state_machine(corpus: Corpus, rep: Report, tier: str):
         rep.violation("C07.R6", k, m.site(tuples[0]), "; ".join(problems))
     else:
         rep.ok("C07.R6", k, m.site(tuples[0]))
+    # every result of options_to_items comes out of the tokenizer: no second, unscanned way of producing pairs
+    loop = loops[0]
+    loop_stmt = loop if isinstance(loop, ast.For) else next((p_ for p_ in _ancestors_until(loop) if isinstance(p_, (ast.ListComp, ast.GeneratorExp))), None)
+
+    def from_tokenizer(e, depth=0) -> str | None:
+        """None when ``e`` (the pairs component of a return value) can only hold pairs built in the _to_tokens iteration"""
+        if isinstance(e, (ast.List, ast.Tuple)) and not e.elts:
+            return None
+        if isinstance(e, ast.Call) and isinstance(e.func, ast.Name) and e.func.id in ("list", "tuple") and len(e.args) == 1:
+            return from_tokenizer(e.args[0], depth)
+        if isinstance(e, (ast.ListComp, ast.GeneratorExp)):
+            return None if e is loop_stmt else f"`{short(e, 50)}` is not the iteration over _to_tokens"
+        if isinstance(e, ast.Name) and depth < 3:
+            defs = [n for n in oti.local_nodes() if isinstance(n, (ast.Assign, ast.AnnAssign)) and e.id in _assigned(n)]
+            if not defs:
+                return f"`{e.id}` has no definition in options_to_items"
+            for d_ in defs:
+                w = from_tokenizer(d_.value, depth + 1)
+                if w:
+                    return w
+            for c in oti.local_nodes():
+                grows = isinstance(c, ast.Call) and isinstance(c.func, ast.Attribute) and isinstance(c.func.value, ast.Name) and c.func.value.id == e.id and c.func.attr in ("append", "extend", "insert", "__iadd__")
+                grows = grows or (isinstance(c, ast.AugAssign) and isinstance(c.target, ast.Name) and c.target.id == e.id)
+                if grows and not (isinstance(loop_stmt, ast.For) and any(c is x for x in ast.walk(loop_stmt))):
+                    return f"`{short(c, 50)}` adds to the result outside the iteration over _to_tokens"
+            return None
+        return f"`{short(e, 50)}` is built without the tokenizer"
+
+    rets = [r for r in oti.local_nodes() if isinstance(r, ast.Return)]
+    if not rets:
+        raise Unsupported("options_to_items: no return statement")
+    seen = Counter()
+    for r in sorted(rets, key=lambda r: r.lineno):
+        comp = r.value.elts[0] if isinstance(r.value, ast.Tuple) and r.value.elts else r.value
+        txt = short(comp, 40) if comp is not None else "None"
+        seen[txt] += 1
+        k = f"{oti.fq}|return {txt}" + (f" #{seen[txt]}" if seen[txt] > 1 else "") + " comes out of the tokenizer"
+        why = from_tokenizer(comp) if comp is not None else "returns no pairs object"
+        if why is None:
+            rep.ok("C07.R6", k, m.site(r))
+        else:
+            rep.violation(
+                "C07.R6",
+                k,
+                m.site(r),
+                f"options_to_items returns pairs that bypass the scanner ({why}): a second, unscanned reading of the text - none of the "
+                "agreement/termination/position guarantees established for the tokenizer applies to it (e.g. trailing blanks, comments, escapes)",
+            )
     rep.expect_min("C07.R6", 12, "dispatches, role flags, key life-cycle and pair construction")
 
 
@@ -3045,4 +3392,37 @@ def mutants(corpus: Corpus):
             out.append(Mutant("c07-hex-check-replaced-by-int-parse", "C07.R1", m.rel, "".join(lines), expect="chr(code)"))
     else:
         out.append(("c07-hex-check-replaced-by-int-parse", "validation loop not found"))
+    # --- round 5: a second way to produce pairs, a per-line test hoisted out of its loop, consuming before validating ---
+    add(
+        "c07-fast-path-bypasses-scanner",
+        "C07.R6",
+        "options_to_items",
+        lambda n: isinstance(n, ast.For),
+        lambda n: "if text.count(':') == 1 and '\\n' not in text and '#' not in text:\n        k_, v_ = text.split(':')\n        return [(k_.strip(), v_.lstrip())], state\n    " + ast.get_source_segment(m.src, n),
+        "comes out of the tokenizer",
+    )
+    add("c07-result-padded-after-loop", "C07.R6", "options_to_items", lambda n: isinstance(n, ast.Return), lambda n: "output.extend([])\n    output.append(('', ''))\n    " + ast.get_source_segment(m.src, n), "comes out of the tokenizer")
+    f_ = m.func("_scan_block_scalar")
+    loop = find_node(f_, lambda n: isinstance(n, ast.While) and "column" in unparse(n.test))
+    flag = find_node(f_, lambda n: isinstance(n, ast.Assign) and unparse(n).startswith("leading_non_space = ")) if loop is not None else None
+    if loop is not None and flag is not None and any(flag is x for x in loop.body):
+        lines = m.src.splitlines(keepends=True)
+        text = " " * loop.col_offset + lines[flag.lineno - 1].lstrip()
+        del lines[flag.lineno - 1 : flag.end_lineno]
+        lines[loop.lineno - 1 : loop.lineno - 1] = [text]
+        out.append(Mutant("c07-per-line-flag-hoisted", "C07.R4", m.rel, "".join(lines), expect="_scan_block_scalar|guards"))
+    else:
+        out.append(("c07-per-line-flag-hoisted", "per-line flag not found in the content loop"))
+    f_ = m.func(nl)
+    loop = find_node(f_, lambda n: isinstance(n, ast.For) and unparse(n.iter) == "range(length)")
+    fw = [n for n in f_.local_nodes() if isinstance(n, ast.Expr) and unparse(n) == "stream.forward(length)"]
+    fw = [n for n in fw if loop is not None and n.lineno > loop.end_lineno]
+    if loop is not None and fw:
+        lines = m.src.splitlines(keepends=True)
+        text = " " * loop.col_offset + lines[fw[0].lineno - 1].lstrip()
+        del lines[fw[0].lineno - 1 : fw[0].end_lineno]
+        lines[loop.lineno - 1 : loop.lineno - 1] = [text]
+        out.append(Mutant("c07-escape-consumed-before-validation", "C07.R3", m.rel, "".join(lines), expect="stream.forward(length)"))
+    else:
+        out.append(("c07-escape-consumed-before-validation", "escape forward not found"))
     return out
